@@ -47,7 +47,8 @@ type vkPlug struct {
 	idx      int
 	mu       *sync.Mutex
 	prepared *time.Duration
-	last     *time.Duration // instant of the most recent Prepare of this interface (re-initialisations included)
+	last     *time.Duration   // instant of the most recent Prepare of this interface (re-initialisations included)
+	all      *[]time.Duration // every Prepare instant of the run (any interface)
 	w        func() time.Duration
 }
 
@@ -58,6 +59,9 @@ func (p *vkPlug) Prepare(ifi *net.Interface) error {
 	if p.last != nil {
 		p.mu.Lock()
 		*p.last = p.w()
+		if p.all != nil {
+			*p.all = append(*p.all, p.w())
+		}
 		p.mu.Unlock()
 	}
 	if err := p.Plugin.Prepare(ifi); err != nil {
@@ -127,7 +131,8 @@ type c17Probe struct {
 	APIBody   []byte
 	Metrics   int
 	PProf     int
-	Overlap   string // non-empty: what went wrong with the overlapping scrapes
+	Overlap   string        // non-empty: what went wrong with the overlapping scrapes
+	OverlapTo time.Duration // virtual instant at which the last overlapping scrape had finished (one slow state read per interface)
 }
 
 // c17StateAt is the system state at virtual time at (ambiguous exactly at the change).
@@ -168,6 +173,7 @@ func c17Prop(t *testing.T, k *verifkit.Kit) func(c c17Case) error {
 			return nil
 		}
 		accepted = true
+		var allPrep []time.Duration // every instant at which an interface was (re-)initialised
 		leaked, pan := bubble(t, func() {
 			if !time.Now().Equal(epoch) {
 				panic(fmt.Sprintf("verif: bubble clock starts at %v", time.Now()))
@@ -178,13 +184,14 @@ func c17Prop(t *testing.T, k *verifkit.Kit) func(c c17Case) error {
 			var mu sync.Mutex
 			prepared := map[string]*time.Duration{}
 			lastPrep := map[string]*time.Duration{}
+			allPrep = nil
 			for i := range cfg.Interfaces {
 				ifi := &cfg.Interfaces[i]
 				p, lp := time.Duration(-1), time.Duration(-1)
 				prepared[ifi.Name] = &p
 				lastPrep[ifi.Name] = &lp
 				for j := range ifi.Plugins {
-					ifi.Plugins[j] = &vkPlug{Plugin: ifi.Plugins[j], st: &st, idx: i, mu: &mu, prepared: prepared[ifi.Name], last: lastPrep[ifi.Name], w: w.now,
+					ifi.Plugins[j] = &vkPlug{Plugin: ifi.Plugins[j], st: &st, idx: i, mu: &mu, prepared: prepared[ifi.Name], last: lastPrep[ifi.Name], all: &allPrep, w: w.now,
 						cur: func() sysState { s, _ := c17StateAt(c, w.now()); return s }}
 				}
 				w.fwd[ifi.Name] = st.Fwd
@@ -335,6 +342,7 @@ func c17Prop(t *testing.T, k *verifkit.Kit) func(c c17Case) error {
 							}()
 						}
 						wg.Wait()
+						p.OverlapTo = w.now()
 						w.mu.Lock()
 						w.stDelay = old
 						w.mu.Unlock()
@@ -468,18 +476,28 @@ func c17Prop(t *testing.T, k *verifkit.Kit) func(c c17Case) error {
 		for _, p := range probes {
 			if p.Overlap != "" {
 				// (only when no link event or address change falls into the few milliseconds of the overlap)
+				// the overlap lasts as long as the slowest scrape: one 1 ms state read per interface
+				span := max(10*time.Millisecond, p.OverlapTo-p.At+time.Millisecond)
 				quiet := true
 				for _, x := range append(append(append([]int64(nil), c.Links...), c.FwdFlips...), c.AddrChangeNS) {
-					if d := time.Duration(x) - p.At; d >= -time.Millisecond && d <= 10*time.Millisecond {
+					if d := time.Duration(x) - p.At; d >= -time.Millisecond && d <= span {
 						quiet = false
 					}
 				}
 				for _, x := range c.StateErr {
-					if d := time.Duration(x) - p.At; d >= -time.Millisecond && d <= 10*time.Millisecond {
+					if d := time.Duration(x) - p.At; d >= -time.Millisecond && d <= span {
 						quiet = false
 					}
 				}
-				if time.Duration(c.UpAtNS)+time.Duration(len(ref.Cfg.Interfaces))*time.Duration(c.UpStepNS) >= p.At-time.Millisecond && time.Duration(c.UpAtNS) <= p.At+10*time.Millisecond {
+				// an interface that is being (re-)initialised while the scrapes run (the dialer retries on its own
+				// schedule: 0, 250 ms, 750 ms, ...) changes what a scrape reports, and the wrapped Prepare has a
+				// window in which the plugin still reads the sandbox's own tables
+				for _, x := range allPrep {
+					if d := x - p.At; d >= -time.Millisecond && d <= span {
+						quiet = false
+					}
+				}
+				if time.Duration(c.UpAtNS)+time.Duration(len(ref.Cfg.Interfaces))*time.Duration(c.UpStepNS) >= p.At-time.Millisecond && time.Duration(c.UpAtNS) <= p.At+span {
 					quiet = false
 				}
 				if quiet {
